@@ -21,6 +21,15 @@ ASSUMPTIONS = ['write sequences are well nested (a trailer is only written when 
 PUNCT = list('~*:^|!\\<>+/#@$%&=?;,_{}[]')
 
 
+LITERAL = {'\x01c': ':', '\x01s': '*', '\x01t': '~'}      # a default delimiter character that is plain data for this source and writer
+
+
+def _literal(s):
+    for k, v in LITERAL.items():
+        s = s.replace(k, v)
+    return s
+
+
 def parse_canon(s):
     """canonical '~*:' segment string -> (id, [[components]])"""
     s = s.rstrip('~')
@@ -113,6 +122,7 @@ def check_case(case):
         for op in ops:
             s = op.replace('~', '\x00T').replace('*', '\x00E').replace(':', '\x00S')
             s = s.replace('\x00T', src[0]).replace('\x00E', src[1]).replace('\x00S', src[2])
+            s = _literal(s)
             if op.startswith('ISA*'):
                 # an ISA read from a source keeps that source's component separator in ISA16
                 s = s[:-2] + src[2] + src[0]
@@ -123,7 +133,7 @@ def check_case(case):
         return out
     text = buf.getvalue()
     icvn = '00501' if '*00501*' in ops[0] else '00401'
-    exp = model(ops, dl, icvn, lx)
+    exp = [(sid, [[_literal(c) for c in e] for e in els]) for sid, els in model(ops, dl, icvn, lx)]
     # ISA carries the writer's delimiters
     try:
         d = x12ref.delimiters(text)
@@ -222,8 +232,12 @@ def strategy(tier):
             classes.add('omitted-trailer')
             return []
 
+        plain = [k for k, c in sorted(LITERAL.items()) if c not in src and c not in (term, ele, sub, rep)]
         for ii in range(n_isa):
             ictl = '%09d' % (ii + 1)
+            if ii > 0 and draw(st.integers(0, 2)) == 0:
+                icvn = '00501' if icvn == '00401' else '00401'      # one writer, interchanges of both versions
+                classes.add('mixed-versions')
             isa = x12ref.make_isa(icvn=icvn, ctl=ictl)
             # the caller's ISA11 is whatever the source had: 'U', a repetition separator, something else
             isa11 = draw(st.sampled_from([c for c in ['U', '^', 'U', '#', '='] if c not in (term, ele, sub) and c not in src]))
@@ -238,6 +252,10 @@ def strategy(tier):
                 nst = draw(st.sampled_from([0, 1, 1, 2, 3]))
                 for si in range(nst):
                     sctl = '%04d' % (si + 1)
+                    if plain and draw(st.integers(0, 3)) == 0:
+                        # ST02 is alphanumeric: a character that is a delimiter only in the default set is data here
+                        sctl += draw(st.sampled_from(plain)) + 'A'
+                        classes.add('default-delimiter-in-control-number')
                     ops.append('ST*837*%s~' % sctl)
                     nb = draw(st.integers(0, 6))
                     have_clm = False
